@@ -156,7 +156,7 @@ func cmdCheck(args []string) {
 	// retry undecided ones once with a longer timeout
 	var retry []*Obligation
 	for _, o := range all {
-		if o.Status != "unsat" && o.Status != "sat" {
+		if o.Status != "unsat" && o.Status != "sat" && !o.ExpectSat {
 			retry = append(retry, o)
 		}
 	}
